@@ -209,23 +209,30 @@ func addVirtualTableHelper(vTableMap map[string]struct{}, orgid int64) (bool, er
 	}
 
 	vTableFileName := getVirtualTableFileName(orgid)
-	fd, err := os.OpenFile(vTableFileName, os.O_APPEND|os.O_WRONLY|os.O_CREATE, 0644)
+	fd, err := os.OpenFile(vTableFileName, os.O_APPEND|os.O_RDWR|os.O_CREATE, 0644)
 	if err != nil {
 		log.Errorf("AddVirtualTable: Failed to open virtual table file=%v, err=%v", vTableFileName, err)
 		return false, err
 	}
 	defer fd.Close()
 
+	// Every name goes out with its newline in a single write, so a crash cannot leave a name without its
+	// terminator. If an earlier crash or write error did leave the last line unterminated, terminate it first:
+	// otherwise the first new name would be glued to it and both names would be lost at the next restart.
+	var sb strings.Builder
+	if finfo, err := fd.Stat(); err == nil && finfo.Size() > 0 {
+		lastByte := make([]byte, 1)
+		if _, err := fd.ReadAt(lastByte, finfo.Size()-1); err == nil && lastByte[0] != '\n' {
+			sb.WriteString("\n")
+		}
+	}
 	for tname := range vTablesToAppend {
-		if _, err := fd.WriteString(tname); err != nil {
-			log.Errorf("AddVirtualTable: Failed to write virtual tablename=%v, in file=%v, err=%v", tname, vTableFileName, err)
-
-			return false, err
-		}
-		if _, err := fd.WriteString("\n"); err != nil {
-			log.Errorf("AddVirtualTable: Failed to write \n to virtual tablename=%v, in file=%v, err=%v", tname, vTableFileName, err)
-			return false, err
-		}
+		sb.WriteString(tname)
+		sb.WriteString("\n")
+	}
+	if _, err := fd.WriteString(sb.String()); err != nil {
+		log.Errorf("AddVirtualTable: Failed to write virtual tablenames=%v, in file=%v, err=%v", vTablesToAppend, vTableFileName, err)
+		return false, err
 	}
 
 	if err = fd.Sync(); err != nil {
